@@ -89,6 +89,13 @@ def run(tier, replay):
         jobs.append(c02.dline("%s.%d.%d.d%d" % (ent["name"], il, m, n), ent["name"], il, m, win, rng.randrange(1, 2 ** 31), 3))
     # every cascade path of every daughter level, each into a brand-new event object (reallocation while filling)
     jobs += [l_ for (l_, m_) in c02.cascade_jobs(S, rng, 1)]
+    # the first-lepton table at its edges: trial energies steered into the first bins (deviates 1e-9 ... 1e-3 of the end point) and the
+    # last ones, for every mode that samples from the table; the logged bin of every trial is checked by TraceBB (1 <= k <= 4300)
+    for (iso_, il_, modes_) in (("Mo100", 0, (1, 2, 3, 4, 5, 6, 13, 14, 15, 17, 18, 19)), ("Mo100", 1, (7, 8, 16)), ("Cd106", 0, (10,)), ("Ca48", 0, (1, 4))):
+        for m_ in modes_:
+            for u1_ in (1e-12, 1e-9, 1e-6, 1e-4, 2e-4, 5e-4, 1e-3, 1 - 1e-4, 1 - 1e-9, 1 - 1e-12):
+                n += 1
+                jobs.append(c02.dline("%s.%d.%d.e%d" % (iso_, il_, m_, n), iso_, il_, m_, None, 4000 + n, 1, bbplan=[u1_, 1e-12, 0.5, 1e-12]))
     nsh = 8
 
     def shard(i):
